@@ -244,7 +244,7 @@ def complete_dps(text, starts):
     return out
 
 
-def judge_cut(acc, base, obs, answers):
+def judge_cut(acc, base, obs, answers, writer=(None, None)):
     """model comparison and oracle for one cut; answers: the model's answer per session"""
     names = base.params['benchmarks']
     k, cut_in = obs['k'], obs['cut_in']
@@ -292,6 +292,18 @@ def judge_cut(acc, base, obs, answers):
             if impl_todo != model_todo:
                 acc.disagree('c09.load: invocations executed by the next session (session %s)' % ses['name'], inp,
                              {'started': impl_todo}, {'todo': model_todo}, THEOREMS)
+    # writer model: the records a session appended
+    for ses, w in zip(obs['sessions'][:2], writer):
+        if w is None:
+            continue
+        model_recs, impl = w
+        impl_recs = list(impl['recs'])
+        if ses['before'] and not ses['before'].endswith('\n') and impl_recs[:1] == ['session']:
+            impl_recs = impl_recs[1:]     # the '#!' line is glued to the torn tail
+        acc.count('writer-compared')
+        if model_recs['recs'] != impl_recs:
+            acc.disagree('c09.session: records appended by session %s' % ses['name'], inp,
+                         {'recs': impl_recs[:60]}, {'recs': model_recs['recs'][:60]}, THEOREMS)
     # ---------------- oracle: the property on what the implementation did
     for ses in obs['sessions']:
         st = ses['status']
@@ -348,12 +360,56 @@ def process(params, wd, cuts, model_fn):
     for o in obs:
         for ses in o['sessions']:
             ops.append(model_op(base, ses['before']))
-    answers = []
-    for i in range(0, len(ops), 300):
-        answers += model_fn(ops[i:i + 300])
+    answers = batched(model_fn, ops)
+    # second batch: what each executing session appended (writer model), given the loader's tables
+    # and the invocation plan of the first batch
+    wops, wmeta = [], []
     for i, o in enumerate(obs):
-        judge_cut(acc, base, o, answers[3 * i:3 * i + 3])
+        for j, ses in enumerate(o['sessions'][:2]):
+            ans = answers[3 * i + j]
+            after = o['sessions'][j + 1]['before']
+            w = writer_ops(base, o, ses, ans, after)
+            if w is not None:
+                wmeta.append((i, j))
+                wops += w
+    wans = batched(model_fn, wops)
+    writer = {}
+    for n, (i, j) in enumerate(wmeta):
+        writer[(i, j)] = (wans[2 * n], wans[2 * n + 1])
+    for i, o in enumerate(obs):
+        judge_cut(acc, base, o, answers[3 * i:3 * i + 3], [writer.get((i, 0)), writer.get((i, 1))])
     return acc, base
+
+
+def batched(model_fn, ops, size=300):
+    out = []
+    for i in range(0, len(ops), size):
+        out += model_fn(ops[i:i + size])
+    return out
+
+
+def writer_ops(base, o, ses, ans, after):
+    """two model ops for a session that appended: the writer model's records for the data points
+    the harness printed (numbered by the model's plan), and the classification of the appended text"""
+    before = ses['before']
+    if ans['end'] != 'ok' or not after.startswith(before) or len(after) == len(before):
+        return None
+    names = base.params['benchmarks']
+    plan = {r: list(t) for (r, t) in ans['todo']}
+    dps = []
+    for n in ses['starts']:
+        st = o['starts'][n]
+        r = names.index(st['bench'])
+        if not plan.get(r):
+            return None          # reported by the comparison of started invocations
+        inv = plan[r].pop(0)
+        for it, dp in enumerate(st['dps']):
+            dps.append([r, r, inv, it + 1, [[c, '%d.000000' % s] for (c, s) in dp[:-1]], '%d.000000' % dp[-1][1]])
+    op1 = {'op': 'c09.session', 'benches': ans['benches'], 'runs': ans['runs'],
+           'glued': bool(before) and not before.endswith('\n'), 'empty': before == '', 'dps': dps}
+    op2 = model_op(base, after[len(before):])
+    op2['want_recs'] = True
+    return [op1, op2]
 
 
 def _worker(args):
